@@ -407,6 +407,10 @@ def build_corpus(tier: str) -> dict[str, list[str]]:
     fam["compile_only"] = dh.compile_only_family()
     fam["unorderable"] = dh.unorderable_family()
     fam["alias_chains"] = dh.alias_chain_family()
+    # round 5: type confusion between constants (seed C04-d), backslash continuations onto blank lines
+    fam["hetero_bounds"] = [s for _, s in dh.hetero_bound_family(tier)]
+    fam["type_confusion"] = dh.type_confusion_family()
+    fam["continuations"] = [s for _, s in dh.continuation_family()]
     if tier == "quick":
         fam["functions"] = fam["functions"][::5]
     return fam
@@ -471,7 +475,34 @@ def _worker_main(conn, repo: str):
         t0 = time.time()
         try:
             signal.setitimer(signal.ITIMER_REAL, tmo)
-            if isinstance(opts, str):          # a single rule / stage function: opts = "module.function"
+            if isinstance(opts, str) and isinstance(src, (list, tuple)):
+                # a batch of sources for one rule (calls of ~1 ms each: one pipe round trip per call would dominate);
+                # res["batch"][k] = None (returned a string) | error record | {"invalid_out": text} when `iters` == 2
+                # asks for the compile() oracle on the result; a timeout is that of source number len(res["batch"])
+                m, a = opts.split(".")
+                fn = getattr(__import__("rmspace"), a) if m == "rmspace" else getattr(mods[m], a)
+                import inspect
+                kw = {pn: _RULE_DEFAULTS[pn] for pn, pp in inspect.signature(fn).parameters.items()
+                      if pp.default is inspect.Parameter.empty and pn in _RULE_DEFAULTS}
+                res["batch"] = []
+                for one in src:
+                    cur = one
+                    core.parse.cache_clear()
+                    try:
+                        nxt = fn(one, **kw)
+                        bad = None
+                        if iters == 2 and isinstance(nxt, str) and nxt != one:
+                            from . import drv_hunt as _dh
+                            if not _dh.compiles(nxt) and _dh.compiles(one):
+                                bad = {"invalid_out": nxt}
+                        res["batch"].append(bad)
+                    except _Timeout:
+                        raise
+                    except BaseException as e:  # noqa
+                        stage, inner, frames = _site_of(traceback.extract_tb(e.__traceback__))
+                        res["batch"].append({"type": type(e).__name__, "msg": str(e)[:200], "stage": stage, "inner": inner,
+                                             "frames": frames[-8:], "iteration": 0, "input": one})
+            elif isinstance(opts, str):          # a single rule / stage function: opts = "module.function"
                 m, a = opts.split(".")
                 fn = getattr(__import__("rmspace"), a) if m == "rmspace" else getattr(mods[m], a)
                 core.parse.cache_clear()
